@@ -156,6 +156,7 @@ def run_instance(u, nm, inst, tier, keep=False):
         specs = W.parse_spec(spec_text) if spec_text else []
         sources = [subst(s, inst) for s in ([u['source']] if isinstance(u['source'], str) else u['source'])]
         cmap = {}
+        winfo = {}
         remaining = {sp['function'] for sp in specs}
         for si, srcrel in enumerate(sources):
             srcabs = os.path.join(REPO, srcrel)
@@ -176,7 +177,7 @@ def run_instance(u, nm, inst, tier, keep=False):
                         pass
             woven, cm, info = W.weave(out, here)
             for sp in here: remaining.discard(sp['function'])
-            cmap.update(cm)
+            cmap.update(cm); winfo.update(info)
             wf = os.path.join(work, f'tu{si}.i')
             open(wf, 'w').write(woven)
             objs.append(wf)
@@ -184,6 +185,7 @@ def run_instance(u, nm, inst, tier, keep=False):
             raise W.WeaveError(f'functions not found in sources: {sorted(remaining)}')
         # 2. harness + stubs
         hsrc = []
+        hfiles = {}
         for h in [u['harness']] + u.get('stubs', []):
             p = os.path.join(u['dir'], h)
             if not os.path.exists(p):
@@ -191,8 +193,13 @@ def run_instance(u, nm, inst, tier, keep=False):
             txt = subst(open(p).read(), inst)
             q = os.path.join(work, os.path.basename(h))
             open(q, 'w').write(txt)
+            hfiles[os.path.basename(h)] = txt
             hsrc.append(q)
         entry = subst(u['entry'], inst)
+        efn = subst(u.get('enforce', ''), inst)
+        res['replay_ctx'] = dict(function=efn, signature=winfo.get(efn, {}).get('signature'), inst=inst, defs=defs, entry=entry,
+                                 harness_file=os.path.basename(u['harness']), files=hfiles,
+                                 clauses=[(k, dict(label=v[2], text=v[3])) for k, v in sorted(cmap.items()) if k[0] == 'SPEC/%s/contract' % efn])
         a = os.path.join(work, 'a.gb'); b = os.path.join(work, 'b.gb')
         cmd = ['goto-cc', '--function', entry] + defs + incs + hsrc + objs + ['-o', a]
         res['cmds'].append(' '.join(cmd))
